@@ -116,6 +116,8 @@ def labels(spec):
                 if any(ord(c) > 127 for s in it['subs'] for f in ('prim', 'sec', 'resp')
                        for c in s.get(f, '')):
                     out.append('non-ascii')
+                if any(g._field_bytes(x) >= 32767 for x in it['subs']):
+                    out.append('field>=32K')
     if t == 4:
         out.append('pdvs=%d' % len(spec['pdvs']))
         for v in spec['pdvs']:
@@ -140,6 +142,7 @@ def run_adjacency(ctx, n):
 
         def fn(value):
             kind, subs = value
+            subs = g._fit(list(subs))
             spec = wrap_subs(kind, subs)
             ctx.case(spec, True, labels=labels(spec) + ['adjacency-enum'],
                      sample={'adjacency': [g.sub_kind(s) for s in subs], 'spec': spec})
